@@ -222,11 +222,18 @@ def _check(prop, tier, seed, scr, t0):
     wall = time.time() - t0
     # ---- evidence
     sites = {str(s["id"]): s for s in instr.get("sites", [])}
-    sync_kinds = {"lock", "unlock", "select", "recv", "send", "close", "go", "wg", "atomic", "once", "cond", "sleep", "range-chan"}
-    unreached = []
+    # scheduling points (unlock is not one) in the files the property is anchored in
+    sync_kinds = {"lock", "select", "recv", "send", "close", "go", "wg", "atomic", "once", "cond", "sleep", "range-chan"}
+    scope = {"C10": ["nclient4/client.go", "nclient6/client.go"], "C11": ["nclient4/client.go", "nclient6/client.go"],
+             "C12": ["nclient4/client.go", "nclient6/client.go"], "C13": ["nclient4/", "nclient6/", "server4/", "server6/"],
+             "C14": ["server4/", "server6/"], "C18": ["nclient4/conn_unix.go", "nclient4/ipv4.go"], "C08": []}[prop]
+    unreached, blocked = [], {}
     for sid, s in sites.items():
-        if s["kind"] in sync_kinds and agg["site_hits"].get(sid, 0) + agg["site_hits"].get(str(-int(sid) - 1), 0) == 0:
+        if s["kind"] in sync_kinds and any(x in s["pos"] for x in scope) and agg["site_hits"].get(sid, 0) + agg["site_hits"].get(str(-int(sid) - 1), 0) == 0:
             unreached.append("%s@%s" % (s["kind"], s["pos"]))
+        woke = agg["site_hits"].get(str(-int(sid) - 1), 0)
+        if woke and s["kind"] in sync_kinds:
+            blocked["%s@%s" % (s["kind"], s["pos"])] = woke
     ev = {
         "property_id": prop, "tier": tier, "seed": seed, "level": "exploration",
         "coverage": {
@@ -248,6 +255,7 @@ def _check(prop, tier, seed, scr, t0):
             "reach_probes": dict(sorted(agg["probes"].items())),
             "select_cases_fired": {("%s case %s" % (sites.get(k.split("/")[0], {}).get("pos", k.split("/")[0]), k.split("/")[1])): v for k, v in sorted(agg["case_hits"].items())},
             "unreached_sync_sites": sorted(unreached),
+            "really_blocked_then_woken_at": dict(sorted(blocked.items())),
             "instrumented_sites": instr.get("counts", {}),
             "instrumenter_warnings": instr.get("warnings") or [],
             "inconclusive_runs": agg["inconclusive"][:20],
